@@ -245,4 +245,90 @@ def r92(F):
     return r
 
 
-RULES = [r36, r37, r38, r39, r92]
+def r39c(F):
+    r = RuleResult("R39c", "a type mismatch is anchored where the operands meet",
+                   "Shape::narrow positions its TypeErr at the right-hand shape, and the shape of a symbol carries the position of its "
+                   "definition; at every narrow call of the checker the right-hand shape is therefore re-anchored at the node being "
+                   "checked (with_pos), built here from the node's own position, or the escaping TypeErr is rebuilt with a position of "
+                   "the node (or dropped)", floor=8, exhaustive=True)
+    NARROW = ("ucglib::ast::Shape::narrow", "ucglib::ast::Shape::narrow_cached")
+    SHAPE = "ucglib::ast::Shape"
+    n = 0
+    for name, fn in sorted(F.fns.items()):
+        if "typecheck" not in name or "::test" in name or fn.derived:
+            continue
+        sites = [(b, t) for b, t in fn.calls() if callee(t) in NARROW]
+        if not sites:
+            continue
+        o = Origins(fn)
+        closures = [F.fns[c] if isinstance(c, str) else c for c in F.closures_of(name)]
+        for k, (b, t) in enumerate(sites):
+            right = o.at(t["args"][1], b)
+            rc = calls_in(right)
+            how = None
+            if "ucglib::ast::Shape::with_pos" in rc:
+                how = "right-hand shape re-anchored with with_pos"
+            elif any(c.endswith(("Iterator::collect", "Iterator::map")) for c in rc) and \
+                    any(callee(t3) == "ucglib::ast::Shape::with_pos" for cf in closures for b3, t3 in cf.calls()):
+                how = "right-hand shapes are re-anchored with with_pos when they are collected"
+            elif not any(c.endswith("derive_shape") or c.endswith("BTreeMap::get") or "resolve_import" in c for c in rc) and \
+                    not any(l[0] == "field" and l[1] in ("args", "items", "ret") for l in right):
+                how = "right-hand shape is built here from the node's position"
+            else:
+                res = t["dest"]["l"]
+                cps = set(util.copies_of(fn, res, allow_not=False))
+                sws = [(sb, st) for sb, st in util.enum_switches(fn, res) if cfg.switch_edge(st, variant="TypeErr") is not None]
+                # the result handed to a closure of this function that rebuilds it
+                cnames = {cf.name for cf in closures}
+                for b2, t2 in fn.calls():
+                    is_closure_call = callee(t2) in cnames or callee(t2).split("::")[-1] in ("call", "call_mut", "call_once")
+                    if is_closure_call and cfg.reaches(fn, b, b2) and any(("call", callee(t), b) in o.at(a, b2) for a in t2["args"]):
+                        for cf in closures:
+                            oc = Origins(cf)
+                            for b3, j3, pl3, rv3, m3 in cf.assigns():
+                                if rv3["k"] == "agg" and rv3.get("adt") == SHAPE and rv3.get("variant") == "TypeErr" and len(rv3["ops"]) == 2:
+                                    if any(c.endswith("::pos") for c in calls_in(oc.at(rv3["ops"][0], b3))):
+                                        how = "the result goes through a closure that rebuilds a TypeErr at a position of the node"
+                if how is None and sws:
+                    verdicts = []
+                    for sb, st in sws:
+                        te = cfg.switch_edge(st, variant="TypeErr")
+                        reg = cfg.reachable(fn, te)
+                        aggs = [(b2, rv) for b2, j, pl, rv, m in fn.assigns() if b2 in reg and rv["k"] == "agg" and rv.get("adt") == SHAPE
+                                and rv.get("variant") == "TypeErr" and len(rv["ops"]) == 2 and cfg.dominates(fn, te, b2)]
+                        if aggs:
+                            verdicts.append(all(any(c.endswith("::pos") for c in calls_in(o.at(rv["ops"][0], b2))) for b2, rv in aggs))
+                            continue
+                        escapes = False
+                        for b2, j, pl, rv, m in fn.assigns():
+                            if b2 in reg and cfg.dominates(fn, te, b2) and rv["k"] == "use" and op_local(rv["ops"][0]) in cps and \
+                                    (pl["l"] == 0 or pl["p"]):
+                                escapes = True
+                        for b2, t2 in fn.calls():
+                            if b2 in reg and cfg.dominates(fn, te, b2) and any(op_local(a) in cps for a in t2["args"]) and \
+                                    not callee(t2).endswith(("drop_in_place", "::type_name")):
+                                escapes = True
+                        # pattern-bound parts of the result used to record the error
+                        for b2, t2 in fn.calls():
+                            if b2 in reg and cfg.dominates(fn, te, b2) and ("with_pos" in callee(t2) or callee(t2).endswith("Vec::push")) and \
+                                    any(("call", callee(t), b) in o.at(a, b2) for a in t2["args"]):
+                                escapes = True
+                        verdicts.append(not escapes)
+                        if not escapes and not aggs:
+                            how = "no TypeErr from this narrowing leaves with the position of the right-hand shape (dropped or re-anchored)"
+                    if verdicts and all(verdicts) and how is None:
+                        how = "the escaping TypeErr is rebuilt at a position of the node"
+                    if not all(verdicts):
+                        how = None
+                elif how is None:
+                    # the result is returned / recorded as it is
+                    how = None
+            n += 1
+            short = name.split("::")[-1] if not name.startswith("<") else name.split(" as ")[0].split("::")[-1] + "::" + name.split("::")[-1]
+            r.inst("%s:narrow#%d" % (short, k), fn.where(b), how is not None, how or
+                   "a TypeErr from this narrowing escapes with the position of the right-hand shape, which for a symbol is the "
+                   "position of its definition: the diagnostic points at another statement than the faulty one")
+    return r
+
+
+RULES = [r36, r37, r38, r39, r92, r39c]
